@@ -352,27 +352,14 @@ Proof.
   - exact (reach_step E h roots i o j o' IH Hg (Hsub i o Hg j Hj) Hg').
 Qed.
 
-Lemma collect_exact : forall h roots,
-  exists h', collect h roots = Some h'
-             /\ forall i, get h' i = match get h i with
-                                     | Some o => if mem i (match mark h roots with Some m => m | None => [] end)
-                                                 then Some o else None
-                                     | None => None
-                                     end.
+(* collect over any edge function: exactly the E-reachable objects survive, unchanged *)
+Lemma collect_with_spec : forall E h roots,
+  exists h', collect_with E h roots = Some h'
+    /\ (forall i o, reach E h roots i -> get h i = Some o -> get h' i = Some o)
+    /\ (forall i, ~ reach E h roots i -> get h' i = None).
 Proof.
-  intros h roots. unfold collect, collect_with, mark.
-  destruct (mark_closure edges_code h roots) as (m & Hm & _). rewrite Hm.
-  eexists. split; [reflexivity|]. intro i. rewrite get_sweep.
-  destruct (get h i); destruct (mem i m); reflexivity.
-Qed.
-
-Lemma collect_spec : forall h roots,
-  exists h', collect h roots = Some h'
-    /\ (forall i o, reachable_code h roots i -> get h i = Some o -> get h' i = Some o)
-    /\ (forall i, ~ reachable_code h roots i -> get h' i = None).
-Proof.
-  intros h roots. unfold collect, collect_with.
-  destruct (mark_closure edges_code h roots) as (m & Hm & Hiff). rewrite Hm.
+  intros E h roots. unfold collect_with.
+  destruct (mark_closure E h roots) as (m & Hm & Hiff). rewrite Hm.
   eexists. split; [reflexivity|]. split.
   - intros i o Hr Hg. rewrite get_sweep.
     assert (Hin : In i m) by (apply Hiff; exact Hr).
@@ -381,43 +368,54 @@ Proof.
     exfalso. apply Hn, Hiff, mem_In, Hmem.
 Qed.
 
-Lemma collect_safe_lemma : forall h roots,
-  (forall i o, get h i = Some o -> incl (edges_spec o) (edges_code o)) ->
-  exists h', collect h roots = Some h'
+(* conditional safety: a collector that follows at least the specification's edges is safe *)
+Lemma collect_with_safe : forall E h roots,
+  (forall i o, get h i = Some o -> incl (edges_spec o) (E o)) ->
+  exists h', collect_with E h roots = Some h'
     /\ forall i o, reachable_spec h roots i -> get h i = Some o -> get h' i = Some o.
 Proof.
-  intros h roots Hsub.
-  destruct (collect_spec h roots) as (h' & Hc & Hkeep & _).
+  intros E h roots Hsub.
+  destruct (collect_with_spec E h roots) as (h' & Hc & Hkeep & _).
   exists h'. split; [exact Hc|].
   intros i o Hr Hg. apply Hkeep; [|exact Hg].
-  exact (reach_incl_edges edges_code edges_spec h roots Hsub i Hr).
+  exact (reach_incl_edges E edges_spec h roots Hsub i Hr).
 Qed.
 
-(* the proposed repair (mark follows every stored reference) is safe unconditionally *)
-Lemma collect_with_spec_safe : forall h roots,
-  exists h', collect_with edges_spec h roots = Some h'
+(* the collector as it is follows exactly the specification's edges *)
+Lemma edges_code_eq_spec : forall o, edges_code o = edges_spec o.
+Proof. intros o. destruct o as [d|d f|d|d [p|]|d fn ups|d es|d es]; reflexivity. Qed.
+
+Lemma reach_code_iff_spec : forall h roots i, reachable_code h roots i <-> reachable_spec h roots i.
+Proof.
+  intros h roots i. unfold reachable_code, reachable_spec. split.
+  - apply reach_incl_edges. intros j o _. rewrite <- (edges_code_eq_spec o). apply incl_refl.
+  - apply reach_incl_edges. intros j o _. rewrite (edges_code_eq_spec o). apply incl_refl.
+Qed.
+
+(* headline: unconditional *)
+Lemma collect_safe_lemma : forall h roots,
+  exists h', collect h roots = Some h'
     /\ (forall i o, reachable_spec h roots i -> get h i = Some o -> get h' i = Some o)
     /\ (forall i, ~ reachable_spec h roots i -> get h' i = None).
 Proof.
-  intros h roots. unfold collect_with.
-  destruct (mark_closure edges_spec h roots) as (m & Hm & Hiff). rewrite Hm.
-  eexists. split; [reflexivity|]. split.
-  - intros i o Hr Hg. rewrite get_sweep.
-    assert (Hin : In i m) by (apply Hiff; exact Hr).
-    apply mem_In in Hin. rewrite Hin. exact Hg.
-  - intros i Hn. rewrite get_sweep. destruct (mem i m) eqn:Hmem; [|reflexivity].
-    exfalso. apply Hn, Hiff, mem_In, Hmem.
+  intros h roots. destruct (collect_with_spec edges_code h roots) as (h' & Hc & Hk & Hf).
+  exists h'. split; [exact Hc|]. split.
+  - intros i o Hr Hg. apply Hk; [apply reach_code_iff_spec; exact Hr|exact Hg].
+  - intros i Hn. apply Hf. intro Hr. apply Hn. apply reach_code_iff_spec. exact Hr.
 Qed.
 
-(* the premise holds for every object that is not a function with nested constants *)
-Lemma edges_spec_code_nonfunction : forall o,
-  (forall d f, o <> OFunction d f) -> edges_spec o = edges_code o.
-Proof. intros o H. destruct o; try reflexivity. exfalso. exact (H d f eq_refl). Qed.
-
-Lemma edges_code_incl_spec : forall o, incl (edges_code o) (edges_spec o).
+(* the historical edge function never followed an edge the specification lacks, and differs from
+   it only at function objects *)
+Lemma edges_old_incl_spec : forall o, incl (edges_old o) (edges_spec o).
 Proof.
-  intros o. destruct o; try apply incl_refl.
-  destruct f as [own ns]. cbn [edges_code edges_spec fnc_own fnc_all]. apply incl_appl, incl_refl.
+  intros o. destruct o as [d|d f|d|d [p|]|d fn ups|d es|d es]; try apply incl_refl.
+  destruct f as [own ns]. cbn [edges_old edges_spec fnc_own fnc_all]. apply incl_appl, incl_refl.
+Qed.
+
+Lemma edges_old_nonfunction : forall o, (forall d f, o <> OFunction d f) -> edges_old o = edges_spec o.
+Proof.
+  intros o H. destruct o as [d|d f|d|d [p|]|d fn ups|d es|d es]; try reflexivity.
+  exfalso. exact (H d f eq_refl).
 Qed.
 
 (* ---- alloc after sweep: a freed slot is handed out again ------------------------------- *)
@@ -467,22 +465,3 @@ Proof.
     + exists h2. split; assumption.
 Qed.
 
-(* ---- deciding the premise of collect_safe on a concrete heap --------------------------- *)
-Definition incl_b (a b : list N) : bool := forallb (fun x => mem x b) a.
-Definition premise_b (h : heap) : bool :=
-  forallb (fun s => match s with Some o => incl_b (edges_spec o) (edges_code o) | None => true end) (slots h).
-
-Lemma incl_b_spec : forall a b, incl_b a b = true -> incl a b.
-Proof.
-  intros a b H x Hx. unfold incl_b in H. rewrite forallb_forall in H.
-  apply mem_In. exact (H x Hx).
-Qed.
-
-Lemma premise_b_spec : forall h, premise_b h = true ->
-  forall i o, get h i = Some o -> incl (edges_spec o) (edges_code o).
-Proof.
-  intros h H i o Hg. unfold premise_b in H. rewrite forallb_forall in H.
-  unfold get in Hg. destruct (nth_error (slots h) (N.to_nat i)) as [[o0|]|] eqn:Hn; try discriminate.
-  injection Hg as ->. apply nth_error_In in Hn. specialize (H _ Hn). cbn beta iota in H.
-  exact (incl_b_spec _ _ H).
-Qed.
